@@ -197,6 +197,10 @@ func faultList() []fault {
 		}, genCmds},
 		{"unknown-processor", setRa(func(s string) string { return s + "##!> frobnicate\nx\n##!<\n" }), genCmds},
 		{"unknown-cmdline-type", setRa(func(s string) string { return s + "##!> cmdline bsd\nls\n##!<\n" }), genCmds},
+		{"cmdline-type-not-lowercase", setRa(func(s string) string { return s + "##!> cmdline Unix\nls\n##!<\n" }), genCmds},
+		{"cmdline-type-uppercase", setRa(func(s string) string { return s + "##!> assemble\n##!> cmdline WINDOWS\nls\n##!<\n##!<\n" }), genCmds},
+		{"cmdline-type-missing", setRa(func(s string) string { return s + "##!> cmdline\nls\n##!<\n" }), genCmds},
+		{"cmdline-type-not-a-word", setRa(func(s string) string { return s + "##!> cmdline 2\nls\n##!<\n##!> cmdline -unix\nls\n##!<\n" }), genCmds},
 		{"unbalanced-end", setRa(func(s string) string { return s + "##!<\n" }), func(ra raFile) [][]string {
 			return append(genCmds(ra), []string{"regex", "format", ra.arg}, []string{"regex", "format", "-a"}, []string{"regex", "format", "-c", ra.arg})
 		}},
@@ -441,6 +445,33 @@ func oracleC08(p *Pair, env *Env, a [][]byte) *Failure {
 		if norm(all.stdout) != norm(singles...) {
 			return &Failure{What: "compare --all reports other verdicts than the single invocations", Detail: fmt.Sprintf("all %q\nsingles %q", norm(all.stdout), norm(singles...))}
 		}
+		// the same in the other output mode: every rule is still reported, by --all as by the single invocations
+		normG := func(bs ...[]byte) string {
+			var ls []string
+			for _, b := range bs {
+				for _, l := range strings.Split(string(b), "\n") {
+					if strings.Contains(l, "Regex of") && !strings.HasPrefix(l, "::error::") {
+						ls = append(ls, l)
+					}
+				}
+			}
+			sort.Strings(ls)
+			return strings.Join(ls, "\n")
+		}
+		allG := runCLI(env, sbAll, nil, "-l", "disabled", "-o", "github", "regex", "compare", "-a")
+		var singlesG [][]byte
+		exitG := 0
+		for _, arg := range order {
+			c := runCLI(env, sbOne, nil, "-l", "disabled", "-o", "github", "regex", "compare", arg)
+			singlesG = append(singlesG, c.stdout)
+			if c.exit != 0 {
+				exitG = c.exit
+			}
+		}
+		if normG(allG.stdout) != normG(singlesG...) || (allG.exit == 0) != (exitG == 0) {
+			return &Failure{What: "compare --all -o github reports other verdicts than the single invocations",
+				Detail: fmt.Sprintf("all (exit %d) %q\nsingles (exit %d) %q", allG.exit, normG(allG.stdout), exitG, normG(singlesG...))}
+		}
 	} else if (all.exit == 0) != (exitOne == 0) {
 		return &Failure{What: "exit status of --all differs from the single invocations", Detail: fmt.Sprintf("all %d singles %d", all.exit, exitOne)}
 	}
@@ -575,6 +606,26 @@ func oracleC18Arg(p *Pair, env *Env, a [][]byte) *Failure {
 	return nil
 }
 
+// --all derives id and offset from file names with the same grammar: a file whose offset does not fit (…-chain256.ra,
+// …-chain257.ra) is never read as offset 0 or 1 — its text must not reach any rule
+func oracleC18All(p *Pair, env *Env, a [][]byte) *Failure {
+	t := decodeTree(a[0])
+	for _, cmd := range []string{"update", "compare"} {
+		sb := mkSandbox(env)
+		_ = t.write(sb)
+		c := runCLI(env, sb, nil, "-l", "disabled", "regex", cmd, "--all")
+		rules, _ := os.ReadFile(filepath.Join(sb, "rules/REQUEST-942-X.conf"))
+		os.RemoveAll(sb)
+		if bytes.Contains(rules, []byte("toolarge")) || bytes.Contains(rules, []byte("wraps")) {
+			return &Failure{What: "regex " + cmd + " --all wrote the text of a file with an out-of-range chain offset into a rule", Detail: fmt.Sprintf("exit %d\n%s", c.exit, rules)}
+		}
+		if c.exit == 0 {
+			return &Failure{What: "regex " + cmd + " --all succeeds on a tree with an assembly file whose chain offset is out of range", Detail: fmt.Sprintf("stdout %q", c.stdout)}
+		}
+	}
+	return nil
+}
+
 // args: tree JSON (root content), start dir relative to sandbox, expected marker, layout name
 func oracleC18Root(p *Pair, env *Env, a [][]byte) *Failure {
 	t := decodeTree(a[0])
@@ -687,6 +738,12 @@ func genC18(r *rand.Rand, tier string, env *Env) []Case {
 		}
 		cases = append(cases, Case{Kind: "resolve-argument", Oracles: []Op{{"c18.arg", [][]byte{encodeTree(c18Tree()), []byte(e.arg), []byte(e.file)}}}})
 	}
+	// --all on trees with oversized offsets in file names (only well-formed names otherwise)
+	for _, big := range []string{"256", "257", "511", "65536", "4294967296"} {
+		t := Tree{"regex-assembly/942100.ra": []byte("plain\n"), "regex-assembly/942100-chain1.ra": []byte("chainone\n"), "regex-assembly/942100-chain" + big + ".ra": []byte("wraps\n"),
+			"rules/REQUEST-942-X.conf": []byte("SecRule ARGS \"@rx plain\" \\\n    \"id:942100,\\\n    chain\"\n    SecRule ARGS \"@rx chainone\" \\\n    \"t:none\"\n")}
+		cases = append(cases, Case{Kind: "all-oversized-offset", Oracles: []Op{{"c18.all", [][]byte{encodeTree(t)}}}})
+	}
 	// roots: nested roots, start directories at depth 0..4 below or beside a root
 	layout := Tree{
 		"a/regex-assembly/942100.ra": []byte("outerroot\n"), "a/rules/": nil, "a/x/y/": nil,
@@ -708,11 +765,21 @@ func genC18(r *rand.Rand, tier string, env *Env) []Case {
 // ---- C17: no silent truncation -------------------------------------------------------------------
 
 // args: site, length (decimal), position ("first"/"middle"/"last"), final newline ("1"/"0")
+// companions: the other lines of the file that must be carried through — none when the long line is the whole file
+func companions(ws []string, pos string) []string {
+	if pos == "only" {
+		return nil
+	}
+	return ws
+}
+
 func oracleC17(p *Pair, env *Env, a [][]byte) *Failure {
 	site, n, pos, nl := string(a[0]), num(a[1]), string(a[2]), string(a[3]) == "1"
 	long := strings.Repeat("a", n)
 	place := func(lines []string, l string) []string {
 		switch pos {
+		case "only":
+			return []string{l} // the long line is the whole file
 		case "first":
 			return append([]string{l}, lines...)
 		case "last":
@@ -769,13 +836,13 @@ func oracleC17(p *Pair, env *Env, a [][]byte) *Failure {
 				return nil
 			}
 			buf := "\n" + string(pr.Out[0])
-			for _, w := range []string{"zzq1", "zzq2"} {
+			for _, w := range companions([]string{"zzq1", "zzq2"}, pos) {
 				if !strings.Contains(buf, "\n"+w+"\n") {
 					return fail("entry "+w+" is missing from the parsed text", fmt.Sprintf("parsed text of %d bytes", len(pr.Out[0])))
 				}
 			}
 			if site == "generate-exclude-file" {
-				for _, w := range []string{"gone1", "gone2"} {
+				for _, w := range companions([]string{"gone1", "gone2"}, pos) {
 					if strings.Contains(buf, "\n"+w+"\n") {
 						return fail("excluded entry "+w+" survived", "")
 					}
@@ -800,13 +867,13 @@ func oracleC17(p *Pair, env *Env, a [][]byte) *Failure {
 		case "generate-include-suffixed":
 			suf = "ss"
 		}
-		for _, w := range []string{"zzq1", "zzq2"} {
+		for _, w := range companions([]string{"zzq1", "zzq2"}, pos) {
 			if !re.MatchString(pre + w + suf) {
 				return fail("entry "+w+" is missing from the generated alternation", fmt.Sprintf("output of %d bytes", len(g.Out[0])))
 			}
 		}
 		if site == "generate-exclude-file" {
-			for _, w := range []string{"gone1", "gone2"} {
+			for _, w := range companions([]string{"gone1", "gone2"}, pos) {
 				if re.MatchString(w) {
 					return fail("excluded entry "+w+" survived", "")
 				}
@@ -820,7 +887,7 @@ func oracleC17(p *Pair, env *Env, a [][]byte) *Failure {
 		if f.Status != "ok" {
 			return nil
 		}
-		for _, w := range []string{"zzq1", "zzq2", "##!<", long} {
+		for _, w := range append(companions([]string{"zzq1", "zzq2", "##!<"}, pos), long) {
 			if !bytes.Contains(f.Out[0], []byte(w)) {
 				return fail("line "+w[:minInt(len(w), 12)]+" is missing from the formatted file", "")
 			}
@@ -831,7 +898,7 @@ func oracleC17(p *Pair, env *Env, a [][]byte) *Failure {
 		if f.Status != "ok" {
 			return nil
 		}
-		for _, w := range []string{"zzq1", "zzq2", "test_id: 2", long} {
+		for _, w := range append(companions([]string{"zzq1", "zzq2", "test_id: 2"}, pos), long) {
 			if !bytes.Contains(f.Out[0], []byte(w)) {
 				return fail("line with "+w[:minInt(len(w), 12)]+" is missing from the rewritten test file", "")
 			}
@@ -842,7 +909,7 @@ func oracleC17(p *Pair, env *Env, a [][]byte) *Failure {
 		if f.Status != "ok" {
 			return nil
 		}
-		for _, w := range []string{"zzq1", "zzq2", "OWASP_CRS/4.9.0", "ver.4.9.0", long} {
+		for _, w := range append(companions([]string{"zzq1", "zzq2", "OWASP_CRS/4.9.0", "ver.4.9.0"}, pos), long) {
 			if !bytes.Contains(f.Out[0], []byte(w)) {
 				return fail("line with "+w[:minInt(len(w), 12)]+" is missing from the rewritten file", "")
 			}
@@ -863,8 +930,14 @@ func genC17(r *rand.Rand, tier string, env *Env) []Case {
 			if (site == "generate" || site == "generate-defined") && n > 140000 && n != 262144 {
 				continue // the assembler's own line loop needs the engine, which is quadratic on very long literals
 			}
-			for _, pos := range []string{"first", "middle", "last"} {
+			for _, pos := range []string{"first", "middle", "last", "only"} {
+				if pos == "only" && (site == "generate-exclude-file" || site == "generate-defined" || site == "generate-include-defined") {
+					continue // these sites need their other lines (definition, excluded words)
+				}
 				nl := pick(r, []string{"1", "0"})
+				if pos == "only" {
+					nl = "0" // a single line without final newline: the token fills the whole input
+				}
 				c := Case{Kind: "long-line:" + site, Oracles: []Op{{"c17.carry", [][]byte{[]byte(site), []byte(fmt.Sprint(n)), []byte(pos), []byte(nl)}}}}
 				// the same input through model and code (the model's scanner has no limit)
 				long := strings.Repeat("a", n)
@@ -893,12 +966,13 @@ func init() {
 	oracles["c08.all"] = oracleC08
 	oracles["c18.arg"] = oracleC18Arg
 	oracles["c18.root"] = oracleC18Root
+	oracles["c18.all"] = oracleC18All
 	oracles["c17.carry"] = oracleC17
 	treeRule := "generated CRS checkouts (1..5 rule assembly files incl. chain offsets, include files, toolchain.yaml or none, rules files with the addressed rules and chains, regression tests, setup example) with decoys (other extensions, similar names, nested directories, files outside the root); "
 	properties["C15"] = &Property{ID: "C15", LeanMods: []string{"CrsProps.C15"}, Corr: "K10 (binary on sandbox trees, recursive snapshot path/size/sha256/mode before and after)", Workers: 8,
 		Rule: treeRule + "19-20 command lines per tree (inspecting and rewriting commands, single target / --all / --check / -o github), run from the root, with -d root, -d subdirectory, relative -d; non-trivial = every run; distinct by (tree, command, mode)", Gen: genC15}
 	properties["C16"] = &Property{ID: "C16", LeanMods: []string{"CrsProps.C16"}, Corr: "K10 (exit status, stdout, tree snapshot under single injected faults)", Workers: 8,
-		Rule: treeRule + "one fault of 22 classes injected into the first/middle/last assembly file (or the rules file / argument / version), every command the fault concerns; non-trivial = every run; distinct by (tree, fault, command)", Gen: genC16,
+		Rule: treeRule + "one fault of 26 classes injected into the first/middle/last assembly file (or the rules file / argument / version), every command the fault concerns; non-trivial = every run; distinct by (tree, fault, command)", Gen: genC16,
 		Assume: []string{"known finding D19: update --all / format --all are not atomic — targets of assembly files preceding the faulty one (format: any other file) are already rewritten when the run fails"}}
 	properties["C08"] = &Property{ID: "C08", LeanMods: []string{"CrsProps.C08"}, Corr: "K10 (tree after --all vs tree after the single invocations in a random order; compare verdict lines)", Workers: 8,
 		Rule: treeRule + "update/format/compare --all against the sequence of single invocations in 2 (quick) / 6 (thorough) random orders; assembly files share stored names and definition names; non-trivial = trees with at least two assembly files; distinct by (tree, command, order)", Gen: genC08}
